@@ -180,6 +180,57 @@ def _eligible_poll(F, caller, t, stack):
     return h, par
 
 
+
+# ------------------------------------------------------------------ Option / Result combinators with an inline closure
+
+# callee suffix -> (enum of the receiver, discriminant of the "other" variant, what the other variant yields, payload variant)
+#   yields: "false" / "true" constant, or "arg1" = the default operand handed to map_or
+COMBINATORS = (("core::option::Option::is_some_and", ("0", "false", "Some")), ("core::option::Option::is_none_or", ("0", "true", "Some")),
+               ("core::option::Option::map_or", ("0", "arg1", "Some")),
+               ("core::result::Result::is_ok_and", ("1", "false", "Ok")), ("core::result::Result::is_err_and", ("0", "false", "Err")))
+
+
+def _closure_agg(blocks, local):
+    found = None
+    for b in blocks:
+        for st in b["stmts"]:
+            if st["d"] == [local]:
+                rv = st["rv"]
+                if rv["k"] == "agg" and rv.get("ak") == "closure":
+                    if found is not None:
+                        return None
+                    found = rv
+                else:
+                    return None
+        t = b["term"]
+        if t["k"] == "call" and t.get("d") == [local]:
+            return None
+    return found
+
+
+def _eligible_comb(F, caller, blocks, t, stack):
+    """`opt.is_some_and(|x| ..)`, `opt.is_none_or(..)`, `opt.map_or(default, |x| ..)`, `res.is_ok_and(..)` with a closure written in
+    place: the match it abbreviates.  Returns (spec, closure body, closure aggregate) or None."""
+    nm = t.get("ngen") or t.get("gen") or t.get("ncallee") or ""
+    nm = re.sub(r"::<[^>]*>", "", nm)
+    spec = next((sp for suf, sp in COMBINATORS if nm == suf or nm.endswith("::" + suf)), None)
+    if spec is None or not t.get("args") or t.get("t") is None or not t.get("d"):
+        return None
+    a0 = t["args"][0]
+    cl_op = t["args"][-1]
+    if a0[0] not in ("mv", "cp") or cl_op[0] not in ("mv", "cp") or len(cl_op[1]) != 1:
+        return None
+    if len(t["args"]) != (3 if spec[1] == "arg1" else 2):
+        return None
+    agg = _closure_agg(blocks, cl_op[1][0])
+    if agg is None:
+        return None
+    cl = F.body(agg.get("adt"))
+    if cl is None or cl.kind != "closure" or cl.coroutine or cl.crate != caller.crate or cl.path in stack or cl.nblocks > MAX_CALLEE_BLOCKS:
+        return None
+    return spec, cl, agg
+
+
 _cand_cache = {}
 
 
@@ -193,6 +244,10 @@ def has_candidates(F, body):
                 if c.get("indirect"):
                     continue
                 if _eligible(F, body, {"callee": c["callee"], "ncallee": c["ncallee"], "f": None}, (body.path,)) is not None:
+                    res = True
+                    break
+                cn = re.sub(r"::<[^>]*>", "", c.get("ncallee") or c.get("callee") or "")
+                if any(cn == suf or cn.endswith("::" + suf) for suf, _ in COMBINATORS):
                     res = True
                     break
                 if body.coroutine and _eligible_poll(F, body, {"callee": c["callee"], "ncallee": c["ncallee"], "args": [0, 0]}, (body.path,)) is not None:
@@ -309,9 +364,38 @@ class _Threader:
         self.byid[i] = b
         return b
 
-    def thread_caller(self, start, env):
+    def thread_caller(self, start, env, fresh=None, rename=None):
         """From caller block `start`, with `env` = {local: tag}, copy glue blocks while resolving every branch on a known tag.
-        Returns the id of the first copied block, or `start` itself if no branch could be resolved."""
+        Returns the id of the first copied block, or `start` itself if no branch could be resolved.
+        With `fresh` (a local allocator) the copies are put in single-assignment form: every local they define gets a new name, so
+        that a constant handed down this path does not become a second definition of the variable the other paths compute."""
+        rename = dict(rename or {})
+
+        def rn_place(p):
+            return [rename.get(p[0], p[0])] + list(p[1:]) if p else p
+
+        def rn_op(o):
+            return [o[0], rn_place(o[1])] + list(o[2:]) if isinstance(o, list) and o and o[0] in ("mv", "cp") and isinstance(o[1], list) else o
+
+        def rn_stmt(s_):
+            if fresh is None:
+                return dict(s_)
+            rv = dict(s_["rv"])
+            for k_ in ("a", "b"):
+                if k_ in rv:
+                    rv[k_] = rn_op(rv[k_])
+            if isinstance(rv.get("p"), list):
+                rv["p"] = rn_place(rv["p"])
+            if "ops" in rv:
+                rv["ops"] = [rn_op(o) for o in rv["ops"]]
+            d_ = list(s_["d"])
+            if len(d_) == 1:
+                nl = fresh(d_[0])
+                rename[d_[0]] = nl
+                d_ = [nl]
+            elif d_:
+                d_ = rn_place(d_)
+            return dict(s_, d=d_, rv=rv)
         first, prev, cur = None, None, start
         steps, seen, resolved_any = 0, set(), False
         while steps < MAX_THREAD_STEPS and cur is not None and cur not in seen:
@@ -321,7 +405,8 @@ class _Threader:
             if blk is None or blk["cleanup"]:
                 break
             env = dict(env)
-            for s in blk["stmts"]:
+            rstmts = [rn_stmt(s) for s in blk["stmts"]]
+            for s in rstmts:
                 if len(s["d"]) != 1:
                     continue
                 d, rv = s["d"][0], s["rv"]
@@ -358,18 +443,20 @@ class _Threader:
                 nxt = t["t"]
             elif t["k"] == "call":
                 nm = (t.get("gen") or "") + " " + (t.get("callee") or "")
-                a0 = t["args"][0] if t.get("args") else None
+                a0 = rn_op(t["args"][0]) if t.get("args") else None
                 src = env.get(a0[1][0]) if a0 and a0[0] in ("mv", "cp") and len(a0[1]) == 1 else None
                 d = t["d"][0] if len(t.get("d") or []) == 1 else None
                 if d is not None:
                     env.pop(d, None)
-                if src is not None and "Try" in nm and "branch" in nm and src[0] in ("res", "opt") and d is not None and t.get("t") is not None:
+                if fresh is not None:
+                    stop = True     # single-assignment copies are only made of plain glue
+                elif src is not None and "Try" in nm and "branch" in nm and src[0] in ("res", "opt") and d is not None and t.get("t") is not None:
                     env[d] = ("cf", "Continue" if src[1] in ("Ok", "Some") else "Break")
                     nxt = t["t"]
                 else:
                     stop = True
             elif t["k"] == "switch":
-                on = t["on"]
+                on = rn_op(t["on"])
                 src = env.get(on[1][0]) if on[0] in ("mv", "cp") and len(on[1]) == 1 else None
                 val = None
                 if src is not None and src[0] == "int":
@@ -391,7 +478,7 @@ class _Threader:
                 stop = True
             if stop:
                 break
-            nb = self.new_block([dict(s) for s in blk["stmts"]], newterm)
+            nb = self.new_block(rstmts, newterm)
             if first is None:
                 first = nb["id"]
             if prev is not None:
@@ -464,6 +551,105 @@ def _thread_returns(thr, hraw, ren, ret_ids_new, call_t, is_async, dest_place):
 
 # ------------------------------------------------------------------ the inliner
 
+
+def _expand_combinator(F, body, det, byid, state, alloc_block, work, blk, spec, cl, agg, depth, stack, thr):
+    """replace `d = opt.is_some_and(closure)` (etc.) by `switch discriminant(opt) { other => d = const; payload => d = closure(payload) }`"""
+    t = blk["term"]
+    other_discr, yields, payload_variant = spec
+    hraw = F._detail_for(cl.unit).get(cl.path)
+    if hraw is None or len(byid) + len(hraw["blocks"]) > MAX_TOTAL_BLOCKS:
+        return
+    if hraw["argc"] != 2:
+        return
+    line = t.get("l")
+    opt_place = list(t["args"][0][1])
+    hmax_l = max([int(k) for k in hraw["locals"]] + [0])
+    hmax_b = max(b["id"] for b in hraw["blocks"])
+    lo = state["next_l"]
+    state["next_l"] = lo + hmax_l + 1
+    tmp = state["next_l"]
+    state["next_l"] += 1
+    det["locals"][str(tmp)] = "isize"
+    upv = {}
+    for k in range(len(agg["ops"])):
+        upv[k] = state["next_l"]
+        state["next_l"] += 1
+        det["locals"][str(upv[k])] = "(capture %d of %s)" % (k, cl.npath)
+    b_other, b_some = alloc_block(), alloc_block()
+    bo = state["next_b"]
+    state["next_b"] = bo + hmax_b + 1
+    dest = list(t["d"])
+    cont = t["t"]
+    # the call block now branches on the receiver's variant
+    blk["stmts"] = list(blk["stmts"]) + [{"d": [tmp], "rv": {"k": "discr", "p": opt_place}, "l": line}]
+    blk["term"] = {"k": "switch", "on": ["mv", [tmp]], "targets": [[other_discr, b_other]], "otherwise": b_some, "l": line, "inlined_call": cl.npath}
+    if yields in ("true", "false"):
+        ost = [{"d": dest, "rv": {"k": "use", "a": ["c", yields]}, "l": line}]
+    else:
+        ost = [{"d": dest, "rv": {"k": "use", "a": t["args"][1]}, "l": line}]
+    for bid_, st_, tm_ in ((b_other, ost, {"k": "goto", "t": cont}),):
+        nb = {"id": bid_, "cleanup": False, "stmts": st_, "term": tm_}
+        det["blocks"].append(nb)
+        byid[bid_] = nb
+    pst = [{"d": [upv[k]], "rv": {"k": "use", "a": (["cp", a[1]] if a[0] in ("mv", "cp") else a)}, "l": line} for k, a in enumerate(agg["ops"])]
+    pst.append({"d": [lo + 2], "rv": {"k": "use", "a": ["mv", opt_place + ["@" + payload_variant, ".0"]]}, "l": line})
+    hentry = min(b["id"] for b in hraw["blocks"])
+    nb = {"id": b_some, "cleanup": False, "stmts": pst, "term": {"k": "goto", "t": hentry + bo}}
+    det["blocks"].append(nb)
+    byid[b_some] = nb
+    ren = _Ren(lo, bo, upv)
+    n_new = 2
+    ret_ids = set()
+    for hb in hraw["blocks"]:
+        stmts = [{"d": ren.place(s["d"]), "rv": ren.rv(s["rv"]), "l": s.get("l")} for s in hb["stmts"]]
+        ht = hb["term"]
+        if ht["k"] == "return":
+            stmts.append({"d": dest, "rv": {"k": "use", "a": ["mv", [lo]]}, "l": ht.get("l", line)})
+            nt = {"k": "goto", "t": cont}
+            ret_ids.add(hb["id"] + bo)
+        elif ht["k"] == "resume":
+            nt = {"k": "goto", "t": t["u"]} if t.get("u") is not None else {"k": "resume"}
+        else:
+            nt = ren.term(ht)
+        nblk = {"id": hb["id"] + bo, "cleanup": hb["cleanup"], "stmts": stmts, "term": nt}
+        det["blocks"].append(nblk)
+        byid[nblk["id"]] = nblk
+        n_new += 1
+        if nt["k"] == "call" and not nblk["cleanup"] and depth < DEPTH:
+            h2 = _eligible(F, body, nt, stack)
+            if h2 is not None:
+                work.append((nblk["id"], h2, depth + 1, stack + (h2.path,)))
+    for k, ty in hraw["locals"].items():
+        det["locals"][str(int(k) + lo)] = ty
+    for v in hraw["vars"]:
+        if isinstance(v.get("v"), list) and v["v"] and isinstance(v["v"][0], int):
+            det["vars"].append({"name": v["name"], "v": ren.place(v["v"]), "arg": None, "inlined_from": cl.npath})
+    det["extra"]["calls"] += _shift(cl.calls_raw, bo)
+    det["extra"]["aggregates"] += _shift(cl.aggregates_raw, bo)
+    det["extra"]["field_mut"] += _shift(cl.field_mut_raw, bo)
+    det["extra"]["asserts"] += _shift(cl.asserts_raw, bo)
+    threaded = 0
+    call_t = {"t": cont}
+    try:
+        threaded = _thread_returns(thr, hraw, ren, ret_ids, call_t, False, dest)
+        if yields in ("true", "false") and len(dest) == 1:
+            def fresh(old):
+                nl = state["next_l"]
+                state["next_l"] += 1
+                det["locals"][str(nl)] = det["locals"].get(str(old), "bool")
+                return nl
+            d2 = fresh(dest[0])
+            tgt = thr.thread_caller(cont, {d2: ("bool", yields == "true")}, fresh=fresh, rename={dest[0]: d2})
+            if tgt != cont:
+                byid[b_other]["stmts"] = [dict(ost[0], d=[d2])]
+                byid[b_other]["term"] = {"k": "goto", "t": tgt, "threaded_return": True}
+                threaded += 1
+    except Exception:
+        pass
+    det["inlined"].append({"callee": cl.npath, "at_block": blk["id"], "line": line, "depth": depth, "blocks": n_new, "async": False, "combinator": True,
+                           "threaded_returns": threaded})
+
+
 def inline_detail(F, body, raw):
     """returns a detail dict for `body` with unnamed same-crate helpers inlined (or `raw` itself when there is nothing to do)"""
     if os.environ.get("VERIF_NO_INLINE"):
@@ -476,6 +662,10 @@ def inline_detail(F, body, raw):
             h = _eligible(F, body, t, (body.path,))
             if h is not None:
                 work.append((blk["id"], h, 1, (body.path, h.path)))
+                continue
+            hc = _eligible_comb(F, body, blocks, t, (body.path,))
+            if hc is not None:
+                work.append((blk["id"], ("comb",) + hc, 1, (body.path, hc[1].path)))
             elif body.coroutine:
                 hp = _eligible_poll(F, body, t, (body.path,))
                 if hp is not None:
@@ -499,6 +689,9 @@ def inline_detail(F, body, raw):
         blk = byid[bid]
         t = blk["term"]
         if t["k"] != "call":
+            continue
+        if isinstance(h, tuple) and h and h[0] == "comb":
+            _expand_combinator(F, body, det, byid, state, alloc_block, work, blk, h[1], h[2], h[3], depth, stack, thr)
             continue
         is_async = isinstance(h, tuple)
         fut_args, par = None, None
@@ -561,8 +754,11 @@ def inline_detail(F, body, raw):
             new_ids.append(nblk["id"])
             if nt["k"] == "call" and not nblk["cleanup"] and depth < DEPTH:
                 h2 = _eligible(F, body, nt, stack)
+                hc2 = _eligible_comb(F, body, det["blocks"], nt, stack) if h2 is None else None
                 if h2 is not None:
                     work.append((nblk["id"], h2, depth + 1, stack + (h2.path,)))
+                elif hc2 is not None:
+                    work.append((nblk["id"], ("comb",) + hc2, depth, stack + (hc2[1].path,)))
                 elif is_async or body.coroutine:
                     hp = _eligible_poll(F, body, nt, stack)
                     if hp is not None:
